@@ -169,7 +169,8 @@ type c17Seq struct {
 	seed     uint64
 	acked    map[string]bool
 	failed   map[string]bool
-	behind   int // events in the binlog behind the database offset after the last kill
+	failedDo map[string]bool // ids whose Do returned an error because the request context expired
+	behind   int             // events in the binlog behind the database offset after the last kill
 	history  []string
 }
 
@@ -185,7 +186,7 @@ func (s *c17Seq) witness(extra map[string]any) map[string]any {
 // one sequence = one directory
 func (c *c17Ctx) c17Sequence(id int, rnd *rand.Rand, rounds, replicaRounds int) {
 	r := c.r
-	s := &c17Seq{id: id, dir: c17MkTmp(r, fmt.Sprintf("c17-q%d-", id)), mode: "wait", seed: rnd.Uint64N(1 << 40), acked: map[string]bool{}, failed: map[string]bool{}}
+	s := &c17Seq{id: id, dir: c17MkTmp(r, fmt.Sprintf("c17-q%d-", id)), mode: "wait", seed: rnd.Uint64N(1 << 40), acked: map[string]bool{}, failed: map[string]bool{}, failedDo: map[string]bool{}}
 	defer os.RemoveAll(s.dir)
 	if id%2 == 1 {
 		s.mode = "nowait"
@@ -217,7 +218,7 @@ func (c *c17Ctx) c17MasterRound(s *c17Seq, round int, rnd *rand.Rand) bool {
 		fmt.Sprintf("VERIF_C17_FAILPCT=%d", 5+rnd.IntN(15)), fmt.Sprintf("VERIF_C17_BIGPCT=%d", rnd.IntN(12)),
 	}
 	applyMax := []int{0, 1, 3, 10}[rnd.IntN(4)]
-	env = append(env, fmt.Sprintf("VERIF_C17_APPLY_MAX=%d", applyMax))
+	env = append(env, fmt.Sprintf("VERIF_C17_APPLY_MAX=%d", applyMax), fmt.Sprintf("VERIF_C17_CTXPCT=%d", []int{0, 5, 10, 25}[rnd.IntN(4)]))
 	if round == 0 {
 		env = append(env, "VERIF_C17_CREATE=1")
 	}
@@ -244,9 +245,13 @@ func (c *c17Ctx) c17MasterRound(s *c17Seq, round int, rnd *rand.Rand) bool {
 		kill = h.name
 		env = append(env, fmt.Sprintf("VERIF_CRASH=%s:%d", h.name, 1+rnd.IntN(h.kmax)))
 	}
-	if rnd.IntN(4) == 0 {
+	switch rnd.IntN(6) {
+	case 0:
 		// schedule widening: keep appended bytes longer in the writer's buffer / stretch the commit
 		env = append(env, fmt.Sprintf("VERIF_DELAY=fsbinlog.loop.after_write:%d,sqlite.commit.before:%d", 300+rnd.IntN(3000), rnd.IntN(2000)))
+	case 1, 2:
+		// stretch the steps inside Do so that deadlines / sibling cancels land between them
+		env = append(env, fmt.Sprintf("VERIF_DELAY=sqlite.do.after_user_fn:%d,sqlite.do.after_update_offset:%d,sqlite.do.after_binlog_append:%d", 100+rnd.IntN(700), 100+rnd.IntN(700), 100+rnd.IntN(700)))
 	}
 	ch, err := c17RunChild("master", s.dir, env, killAfter, nil)
 	if err != nil {
@@ -256,8 +261,15 @@ func (c *c17Ctx) c17MasterRound(s *c17Seq, round int, rnd *rand.Rand) bool {
 	s.history = append(s.history, fmt.Sprintf("master round %d kill=%s env=%v acks=%d done=%v", round, kill, env[len(env)-min(2, len(env)):], len(ch.acks), ch.done))
 	wit := s.witness(map[string]any{"round": round, "kill": kill, "kill_after_acks": killAfter, "env": env, "acks": len(ch.acks), "calls": len(ch.calls), "failed": len(ch.failed), "views": len(ch.views), "exit": ch.exit})
 	for _, e := range ch.errs {
-		// an engine that went read-only after an error is allowed to refuse; anything else is recorded
 		c.w.Count("child.do_errors", 1)
+		// a writer with a live context and a well-behaved callback got an error from Do
+		switch {
+		case strings.Contains(e, "failing callback returned nil"):
+		case strings.Contains(e, "append get wrong offset"):
+			r.Violation("C17/do/refused-offset-mismatch", "the engine refuses later writes: the binlog is ahead of the engine position (a write that was reported as failed had been appended): "+e, c17Merge(wit, map[string]any{"line": e}))
+		default:
+			r.Violation("C17/do/unexpected-error", "Do with a live context and a succeeding callback returned an error: "+e, c17Merge(wit, map[string]any{"line": e}))
+		}
 		if strings.Contains(e, "failing callback returned nil") {
 			r.Violation("C17/failed-callback/error-swallowed", "Do returned nil although the callback returned an error", c17Merge(wit, map[string]any{"line": e}))
 		}
@@ -275,7 +287,17 @@ func (c *c17Ctx) c17MasterRound(s *c17Seq, round int, rnd *rand.Rand) bool {
 		}
 	}
 	for _, id := range ch.failed {
-		s.failed[id] = true
+		if strings.HasPrefix(id, "C") {
+			s.failedDo[id] = true
+			c.w.Count("ctx_expired_do_failed", 1)
+		} else {
+			s.failed[id] = true
+		}
+	}
+	for _, id := range ch.acks {
+		if strings.HasPrefix(id, "C") {
+			c.w.Count("ctx_expired_do_succeeded", 1)
+		}
 	}
 	for _, id := range ch.calls {
 		if strings.HasPrefix(id, "F") {
@@ -389,6 +411,20 @@ func (c *c17Ctx) c17Judge(s *c17Seq, ch *c17Child, db, kill string, killed bool,
 	for id := range pre.rows {
 		if s.failed[c17Short(id)] {
 			r.Violation("C17/failed-callback/row-present", "a row written by a callback that returned an error is in the database: "+c17Short(id), w2)
+			ok = false
+			break
+		}
+	}
+	for id := range pre.rows {
+		if s.failedDo[c17Short(id)] {
+			r.Violation("C17/failed-do/row-present", "a row of a write whose Do returned an error (request context expired) is in the database: "+c17Short(id), w2)
+			ok = false
+			break
+		}
+	}
+	for _, e := range bl.evs {
+		if s.failedDo[c17Short(e.ID)] {
+			r.Violation("C17/failed-do/in-binlog", "the binlog holds the event of a write whose Do returned an error (request context expired): it is replayed after a restart: "+c17Short(e.ID), w2)
 			ok = false
 			break
 		}
